@@ -19,6 +19,7 @@ from ufl.classes import (
     Index,
     Label,
     MultiIndex,
+    Zero,
 )
 from ufl.core.ufl_type import UFLObject
 from ufl.corealg.traversal import traverse_unique_terminals, unique_post_traversal
@@ -58,6 +59,17 @@ def compute_terminal_hashdata(expressions, renumbering):
                 # Indices need a canonical numbering for a stable
                 # signature, thus this algorithm
                 data = compute_multiindex_hashdata(expr, index_numbering)
+
+            elif isinstance(expr, Zero) and expr.ufl_free_indices:
+                # The free index labels need the same canonical
+                # numbering as the indices in a MultiIndex
+                indices = [Index(count) for count in expr.ufl_free_indices]
+                data = (
+                    "Zero",
+                    expr.ufl_shape,
+                    compute_multiindex_hashdata(indices, index_numbering),
+                    expr.ufl_index_dimensions,
+                )
 
             elif isinstance(expr, ConstantValue):
                 data = expr._ufl_signature_data_(renumbering)
